@@ -1,5 +1,9 @@
 import PPLV.Lattice.ProofsQueries
 import PPLV.Lattice.ProofsFreq
+import PPLV.Lattice.ProofsDiff
+import PPLV.Lattice.ProofsRel
+import PPLV.Lattice.ProofsIneq
+import PPLV.Lattice.ProofsConcat
 import Mathlib.Data.Set.Image
 
 /-!
@@ -162,6 +166,102 @@ theorem timeElapse_least (G H : GridGens) :
   ⟨fun p hp q hq μ => timeElapse_contains G H p q μ hp hq,
    fun K hK x hx => PPLV.Lattice.timeElapse_least G H K (fun p q μ hp hq => hK p hp q hq μ) x hx⟩
 
+/-- generalized affine image (documented relation, `EQUAL` with a modulus): for an `n`-dimensional grid,
+    `{ w | ∃ v ∈ G, lhs(w) + lb ≡_f rhs(v) + rb ∧ wᵢ = vᵢ for every i with lhsᵢ = 0 }`.
+    `generalized_affine_image(var, EQUAL, e, d, m)` is the instance `lhs = d·var`, `f = d·m`. -/
+theorem relImage_spec (n : Nat) (G : GridGens) (lhs : Vec) (lb : ℚ) (rhs : Vec) (rb f : ℚ)
+    (hG : gridSet G ⊆ {x | Supp n x}) (hl : lhs.length ≤ n) :
+    gridSet (relImage n G lhs lb rhs rb f) =
+      {w | Supp n w ∧ ∃ v ∈ gridSet G, (∀ j, lhs.toFun j = 0 → w j = v j) ∧
+        ∃ t : ℤ, dotF lhs w + lb - (dotF rhs v + rb) = (t : ℚ) * f} := by
+  ext w
+  have := relImage_sem n G lhs lb rhs rb f (fun x hx => hG hx) hl w
+  simp only [gridSet, Set.mem_ofPred_eq] at *
+  rw [this]
+
+/-- generalized affine preimage of the same relation -/
+theorem relPreimage_spec (n : Nat) (G : GridGens) (lhs : Vec) (lb : ℚ) (rhs : Vec) (rb f : ℚ)
+    (hG : gridSet G ⊆ {x | Supp n x}) (hl : lhs.length ≤ n) (hr : rhs.length ≤ n) :
+    gridSet (relPreimage n G lhs lb rhs rb f) =
+      {v | Supp n v ∧ ∃ w ∈ gridSet G, (∀ j, lhs.toFun j = 0 → v j = w j) ∧
+        ∃ t : ℤ, dotF rhs v + rb - (dotF lhs w + lb) = (t : ℚ) * f} := by
+  ext v
+  have := relPreimage_sem n G lhs lb rhs rb f (fun x hx => hG hx) hl hr v
+  simp only [gridSet, Set.mem_ofPred_eq] at *
+  rw [this]
+
+/-- the witness of KF-C05-10: the preimage of `{0}` under `A' ≡ 2A (mod 1)` is `(1/2)ℤ` (the library answers `ℤ`) -/
+example : equivB (relPreimage 1 (.gens { pt := [0], params := [], lines := [] }) [1] 0 [2] 0 1)
+    (consToGens 1 [⟨[2], 0, 1⟩]) = true := by decide +kernel
+
+/-- difference: the reference result contains the set difference and is contained in the first argument
+    (`difference` returns the other coset when `G ∩ H` has index 2 in `G`, else `G`, else `∅` when `G ⊆ H`). -/
+theorem difference_sound (G H D : GridGens) (h : difference G H = some D) :
+    gridSet G \ gridSet H ⊆ gridSet D ∧ gridSet D ⊆ gridSet G := by
+  obtain ⟨h1, h2⟩ := PPLV.Lattice.difference_sound G H D h
+  exact ⟨fun x hx => h1 x hx.1 hx.2, fun x hx => h2 x hx⟩
+
+/-- `difference_least_partial`: leastness of the reference result is proved in the two cases where the result is
+    the set difference itself; NOT proved: that `G` is the least grid containing `G \ H` when `G ∩ H` is non-empty
+    of index ≠ 2 (the harness compares the library with this reference, so a library result strictly between
+    would be reported as a mismatch, which is the conservative direction). -/
+theorem difference_least_partial (G H D : GridGens) (_h : difference G H = some D)
+    (hexact : gridSet D ⊆ gridSet G \ gridSet H) (K : GridGens) (hK : gridSet G \ gridSet H ⊆ gridSet K) :
+    gridSet D ⊆ gridSet K := fun _ hx => hK (hexact hx)
+
+/-- the witness of KF-C05-3: `{-1/2} \ {A ≡ -1 (mod 2)} = {-1/2}` (the library answers ∅) -/
+example : (difference (.gens { pt := [-1/2], params := [], lines := [] }) (consToGens 1 [⟨[1], 1, 2⟩])).map
+    (fun D => equivB D (.gens { pt := [-1/2], params := [], lines := [] })) = some true := by decide +kernel
+/-- `ℤ \ 2ℤ` is the odd numbers; `ℤ \ 3ℤ` generates `ℤ` -/
+example : (difference (consToGens 1 [⟨[1], 0, 1⟩]) (consToGens 1 [⟨[1], 0, 2⟩])).map
+    (fun D => equivB D (consToGens 1 [⟨[1], 1, 2⟩])) = some true := by decide +kernel
+example : (difference (consToGens 1 [⟨[1], 0, 1⟩]) (consToGens 1 [⟨[1], 0, 3⟩])).map
+    (fun D => equivB D (consToGens 1 [⟨[1], 0, 1⟩])) = some true := by decide +kernel
+
+/-- dimension operators are images under coordinate maps:
+    `remove_space_dimensions` / `remove_higher_space_dimensions` (keep the listed coordinates) -/
+theorem removeDims_spec (keep : List Nat) (G : GridGens) :
+    gridSet (mapG (selectCoords keep) [] G) = (fun x => coordMap (fun j => keep[j]?) x) '' gridSet G := by
+  ext y
+  simp only [gridSet, Set.mem_ofPred_eq, Set.mem_image, mapCoord_sem _ _ (selectCoords_represents keep)]
+  constructor
+  · rintro ⟨x, hx, rfl⟩; exact ⟨x, hx, rfl⟩
+  · rintro ⟨x, hx, rfl⟩; exact ⟨x, hx, rfl⟩
+
+/-- `map_space_dimensions` with a partial injection into `m` dimensions -/
+theorem mapDims_spec (m : Nat) (pf : List (Option Nat)) (G : GridGens) :
+    gridSet (mapG (mapCoords m pf) [] G) =
+      (fun x => coordMap (fun j => if j < m then pf.idxOf? (some j) else none) x) '' gridSet G := by
+  ext y
+  simp only [gridSet, Set.mem_ofPred_eq, Set.mem_image, mapCoord_sem _ _ (mapCoords_represents m pf)]
+  constructor
+  · rintro ⟨x, hx, rfl⟩; exact ⟨x, hx, rfl⟩
+  · rintro ⟨x, hx, rfl⟩; exact ⟨x, hx, rfl⟩
+
+/-- `add_space_dimensions_and_embed(m)` on an `n`-dimensional grid: the new coordinates are free
+    (`add_space_dimensions_and_project` leaves the generators unchanged: the same points, zero on the new coordinates) -/
+theorem embed_spec (n m : Nat) (G : GridGens) (hG : gridSet G ⊆ {x | Supp n x}) :
+    gridSet (addLines G ((List.range m).map (fun j => unit (n + j)))) =
+      {y | Supp (n + m) y ∧ (fun j => if j < n then y j else 0) ∈ gridSet G} := by
+  ext y; exact embed_sem n m G (fun x hx => hG hx) y
+
+/-- `concatenate_assign`: the product, the second factor shifted by the dimension `n` of the first -/
+theorem concat_spec (n : Nat) (G H : GridGens) (hG : gridSet G ⊆ {x | Supp n x}) :
+    gridSet (concat n G H) = {y | ∃ x ∈ gridSet G, ∃ z ∈ gridSet H, y = x + shiftLin n z} := by
+  ext y
+  have := concat_sem n G H (fun x hx => hG hx) y
+  simp only [gridSet, Set.mem_ofPred_eq] at *
+  rw [this]
+  constructor
+  · rintro ⟨x, z, hx, hz, rfl⟩; exact ⟨x, hx, z, hz, rfl⟩
+  · rintro ⟨x, hx, z, hz, rfl⟩; exact ⟨x, z, hx, hz, rfl⟩
+
+example : equivB (concat 1 (consToGens 1 [⟨[1], 0, 2⟩]) (consToGens 1 [⟨[1], -1, 3⟩]))
+    (consToGens 2 [⟨[1,0], 0, 2⟩, ⟨[0,1], -1, 3⟩]) = true := by decide +kernel
+
+/-- the witness of KF-C05-9: the 0-dimensional universe projected into one dimension is the point 0, not the line -/
+example : equivB (.gens { pt := [], params := [], lines := [] }) (consToGens 1 [⟨[1], 0, 0⟩]) = true := by decide +kernel
+
 /-! ## queries -/
 
 theorem isEmpty_iff (G : GridGens) : G.isEmpty = true ↔ gridSet G = ∅ := by
@@ -259,6 +359,25 @@ theorem boundsExpr_spec (G : GridGens) (e : Vec) :
   constructor
   · intro h x hx y hy; exact h x y hx hy
   · intro h x y hx hy; exact h x hx y hy
+
+/-- relation with an inequality `⟨e,x⟩ + b ≥ 0` (`strict`: `> 0`) on a non-empty grid -/
+theorem relIneq_spec (G : GridGens) (e : Vec) (b : ℚ) (strict : Bool) (hne : (gridSet G).Nonempty) :
+    let sat : Pt → Prop := fun x => if strict then 0 < dotF e x + b else 0 ≤ dotF e x + b
+    ((relIneq G e b strict).1 = true ↔ ∀ x ∈ gridSet G, ¬ sat x) ∧
+    ((relIneq G e b strict).2.1 = true ↔ (∃ x ∈ gridSet G, sat x) ∧ (∃ x ∈ gridSet G, ¬ sat x)) ∧
+    ((relIneq G e b strict).2.2.1 = true ↔ ∀ x ∈ gridSet G, sat x) ∧
+    ((relIneq G e b strict).2.2.2 = true ↔ (∀ x ∈ gridSet G, dotF e x + b = 0) ∧ strict = false) := by
+  intro sat
+  obtain ⟨h1, h2, h3, h4⟩ := PPLV.Lattice.relIneq_spec G e b strict hne
+  refine ⟨h1, ?_, h3, h4⟩
+  rw [h2]
+  constructor
+  · rintro ⟨⟨x, hx, hs⟩, ⟨y, hy, hn⟩⟩; exact ⟨⟨x, hx, hs⟩, ⟨y, hy, hn⟩⟩
+  · rintro ⟨⟨x, hx, hs⟩, ⟨y, hy, hn⟩⟩; exact ⟨⟨x, hx, hs⟩, ⟨y, hy, hn⟩⟩
+
+/-- `(1/2)ℤ` strictly intersects `A ≥ 0`; `{3}` is included in `A > 0` -/
+example : relIneq (consToGens 1 [⟨[2], 0, 1⟩]) [1] 0 false = (false, true, false, false) := by decide +kernel
+example : relIneq (consToGens 1 [⟨[1], -3, 0⟩]) [1] 0 true = (false, false, true, false) := by decide +kernel
 
 /-! ## frequency -/
 
